@@ -5,7 +5,7 @@
    histories is compared between model and implementation. *)
 From Coq Require Import List ZArith Bool.
 From EosV Require Import lib.AList model.World model.Engine model.Ops proofs.Misc_p proofs.Status_p
-     proofs.Frame_p proofs.Owner_p proofs.Cinv_p proofs.Runs_p model.Wf proofs.RunsC_p proofs.RunsD_p.
+     proofs.Frame_p proofs.Owner_p proofs.Cinv_p proofs.Runs_p model.Wf proofs.RunsC_p proofs.RunsK_p proofs.RunsD_p.
 Import ListNotations.
 
 Theorem C11_unregister_undoes_register :
@@ -52,18 +52,21 @@ Proof. intros w i p (_ & M & _) H Hin. apply M in Hin. congruence. Qed.
    included -- keeps running exactly the table's set (KJ = running-set invariant for directly held items and
    for charges / autocharges, ownership, links child -> holder) *)
 Theorem C11_removed_holder_keeps_no_autocharges : forall n s m mit,
-  J (fst s) -> KK (fst s) -> get_item (fst s) m = Some mit -> direct mit ->
+  J (fst s) -> KK (fst s) -> CP (fst s) -> get_item (fst s) m = Some mit -> direct mit ->
   w_err (fst (remove_item (S (S (S (S n)))) s m)) = None ->
   let w' := fst (remove_item (S (S (S (S n)))) s m) in
-  KK w' /\
+  KK w' /\ CP w' /\
   exists mit', get_item w' m = Some mit' /\ i_loaded mit' = None /\ i_cont mit' = None /\ i_autos mit' = [] /\
                i_charge mit' = i_charge mit.
 Proof.
-  intros n s m mit Js K Hm D He. destruct (remove_dir n s m mit Js K Hm D He) as (K' & _ & (x & G & H1 & H2 & H3 & _ & _ & H6)).
-  split; [exact K'|]. exists x. repeat split; assumption.
+  intros n s m mit Js K Cp Hm D He.
+  destruct (remove_dir n s m mit Js K Cp Hm D He) as (K' & _ & (x & G & H1 & H2 & H3 & _ & _ & H6) & Cp').
+  split; [exact K'|split; [exact Cp'|]]. exists x. repeat split; assumption.
 Qed.
+(* KJ also carries the links between items and what they hold (CP: whatever an item lists names it) *)
 Theorem C11_removal_keeps_charge_invariants : forall s i,
-  KJ (fst s) -> w_err (fst (remove_item F s i)) = None -> KJ (fst (remove_item F s i)).
+  KJ (fst s) -> (exists it, get_item (fst s) i = Some it /\ direct it) ->
+  w_err (fst (remove_item F s i)) = None -> KJ (fst (remove_item F s i)).
 Proof. exact remove_KJ. Qed.
 
 Example C11_nonvacuous :
